@@ -191,7 +191,8 @@ func (r *recorder) WriteString(s string) (n int, err error) {
 func (r *recorder) ReadFrom(src io.Reader) (n int64, err error) {
 	if rf, ok := r.ResponseWriter.(io.ReaderFrom); ok {
 		n, err = rf.ReadFrom(src)
-		if err == nil {
+		// Account for every byte accepted by the underlying writer, even if the copy failed midway.
+		if n > 0 {
 			if r.size == notWritten {
 				r.size = 0
 			}
